@@ -185,15 +185,16 @@ int write_python_table_native(std::ostream &out) {
   for (fi = 0; fi < num_functions; fi++) {
     FunctionIndex function_index = interrogate_get_function(fi);
 
-    // Consider only those that belong in the module we asked for.  if
-    // (interrogate_function_has_module_name(function_index) && module_name ==
-    // interrogate_function_module_name(function_index)) { if it has a library
-    // name add it to set of libraries
+    // Consider only those that belong in the module we asked for (a library
+    // of another module is not part of this extension module).
+    if (interrogate_function_has_module_name(function_index) &&
+        module_name == interrogate_function_module_name(function_index)) {
+      // If it has a library name, add it to the set of libraries.
       if (interrogate_function_has_library_name(function_index)) {
         string library_name = interrogate_function_library_name(function_index);
         dependencies[library_name];
       }
-    // }
+    }
   }
 
   for (int ti = 0; ti < interrogate_number_of_global_types(); ti++) {
